@@ -451,7 +451,7 @@ var c27FilterItems = []string{"member-join", "member-leave", "member-failed", "m
 	"user: ", "query:a b", "user:user:deploy", "query:query", "member-join:x", "user:k=v", "query:a=b:c", ":user", "user :x"}
 // tag NAMES are free-form strings too: tabs, newlines, '=' and ',' in them must be escaped in the
 // member line exactly like in names, roles and values
-var c27TagKeys = []string{"role", "dc", "a-b", "ünï", "x.y", "9lives", "k=v", "sp ace", "ıſ", "UP", "",
+var c27TagKeys = []string{"role", "dc", "a-b", "ünï", "x.y", "9lives", "k=v", "sp ace", "ıſ", "\u212aey", "UP", "",
 	"rack\tid", "note\nx", "a,b", "e=q\t,\n", "\t", "\n"}
 var c27TagVals = []string{"web", "", "east 1", "a=b,c", "tab\there", "line\nbreak", "日本", "ü", "\x01\x7f"}
 
